@@ -342,3 +342,76 @@ func (m *Machine) exportMultipart(w *mpWriter) Value {
 	}
 	return out
 }
+
+// ---- server side of multipart/form-data (requests.Parse) ----
+func init() {
+	// verifSetMultipart(req, fieldNames, fieldValues, fileKeys, fileNames, fileContents): attaches a parsed
+	// multipart form to an incoming request (mime/multipart itself is not modelled)
+	R("verifSetMultipart", func(m *Machine, a []Value) Value {
+		req := a[0].(Ptr)
+		mm := &multipartModel{fields: map[string]Value{}, files: map[string]*fileModel{}}
+		fn, fv := a[1].(*SliceV), a[2].(*SliceV)
+		for i := range fn.A {
+			mm.fields[m.concStr(fn.A[i], "multipart field")] = fv.A[i]
+		}
+		fk, fnm, fc := a[3].(*SliceV), a[4].(*SliceV), a[5].(*SliceV)
+		for i := range fk.A {
+			content := bytesVal([]byte(m.concStr(fc.A[i], "file content"))).(*SliceV).A
+			mm.files[m.concStr(fk.A[i], "file key")] = &fileModel{name: m.concStr(fnm.A[i], "file name"), content: content}
+		}
+		m.side[req] = &Opaque{Kind: "multipartform", X: mm}
+		return nil
+	})
+	R("(*net/http.Request).ParseMultipartForm", func(m *Machine, a []Value) Value {
+		req := a[0].(Ptr)
+		o, ok := m.side[req].(*Opaque)
+		if !ok || o.Kind != "multipartform" {
+			return m.errorValue("request Content-Type isn't multipart/form-data")
+		}
+		mm := o.X.(*multipartModel)
+		form := &MapV{}
+		for k, v := range mm.fields {
+			form.set(m, k, &SliceV{A: []Value{v}})
+		}
+		// deterministic order
+		form2 := &MapV{}
+		keys := make([]string, 0, len(mm.fields))
+		for k := range mm.fields {
+			keys = append(keys, k)
+		}
+		sortStrings(keys)
+		for _, k := range keys {
+			form2.set(m, k, &SliceV{A: []Value{mm.fields[k]}})
+		}
+		m.setField(req, m.namedType("net/http", "Request"), "Form", form2)
+		return Iface{}
+	})
+	R("(*net/http.Request).FormFile", func(m *Machine, a []Value) Value {
+		req := a[0].(Ptr)
+		o, ok := m.side[req].(*Opaque)
+		key := m.concStr(a[1], "form file key")
+		ft := types.NewPointer(m.namedType("mime/multipart", "sectionReadCloser"))
+		if !ok || o.Kind != "multipartform" {
+			return Tuple{Iface{}, Ptr(nil), m.errorValue("http: no such file")}
+		}
+		f := o.X.(*multipartModel).files[key]
+		if f == nil {
+			return Tuple{Iface{}, Ptr(nil), m.errorValue("http: no such file")}
+		}
+		ht := m.namedType("mime/multipart", "FileHeader")
+		h := newCell(zero(ht))
+		m.setField(h, ht, "Filename", f.name)
+		// every FormFile call opens the part anew
+		nf := &fileModel{name: f.name, content: f.content}
+		m.native[fmt.Sprintf("file%d", len(m.native))] = nf
+		return Tuple{Iface{T: ft, V: newCell(&Opaque{Kind: "file", X: nf})}, h, Iface{}}
+	})
+}
+
+func sortStrings(s []string) {
+	for i := 1; i < len(s); i++ {
+		for j := i; j > 0 && s[j] < s[j-1]; j-- {
+			s[j], s[j-1] = s[j-1], s[j]
+		}
+	}
+}
